@@ -239,17 +239,21 @@ def verifyHash (st : State) (hash : HashArg) (scheme cat : Arg) (kws : List Kw) 
       ([callOf r .verify k], hasherVerify r f k)
     | _ => ([], .error .typeError)                       -- unreachable: getOrIdentify refuses these
 
+/-- `_dummy_kwds()`: the stand-in context keywords (`user`, `realm`) that some scheme of the context takes (fix ff50ac0: the dummy hash
+    used to be made, and verified, without any keyword — a TypeError when the default scheme cannot hash without a user name) -/
+def dummyKwds (st : State) : List Kw := ["user", "realm"].filter (fun k => (allKwds st.cfg).contains k)
+
 /-- `dummy_verify()`; `dummyFacts` = the atoms of the hash the default scheme gives for the dummy secret -/
 def dummyVerify (st : State) (dummyFacts : String → SchemeFacts) : List Call × Res Unit × State :=
   let (t1, r1, st1) : List Call × Res Unit × State :=
     if st.dummy then ([], .ok (), st)
-    else match ctxHash st .none .none [] with
+    else match ctxHash st .none .none (dummyKwds st) with
       | (t, .error e) => (t, .error e, st)
       | (t, .ok _) => (t, .ok (), { st with dummy := true })
   match r1 with
   | .error e => (t1, .error e, st1)
   | .ok _ =>
-    match verifyHash st1 (.str dummyFacts) .none .none [] with
+    match verifyHash st1 (.str dummyFacts) .none .none (dummyKwds st1) with
     | (t2, .error e) => (t1 ++ t2, .error e, st1)
     | (t2, .ok _) => (t1 ++ t2, .ok (), st1)
 
